@@ -657,16 +657,17 @@ theorem c07_overlap_cached_verdict_identical (cfg : Cfg) (H : Hashes) (ops : Lis
   subst hres
   exact ⟨rfl, rfl, rfl, rfl⟩
 
-/-! ### re-assigned configuration (open finding C07-gate-reassigned-cache)
+/-! ### re-assigned configuration (finding C07-gate-reassigned-cache, repaired)
 
 `gate_logic`, `enable_cache`, `cache_ttl`, … are public attributes; `execR` runs histories in which they are
-re-assigned on the live loop (`ROp.assign`: configuration replaced, state kept). -/
+re-assigned on the live loop (`ROp.assign`: configuration replaced, state kept).  A cache entry records the gate
+logic it was decided under (`LoopResult.gate_logic`) and is served only while that is the logic configured. -/
 
 /-- Histories with re-assigned configuration, in full: every reply that is not blocked — fresh or cached — traces
     back to a request of the history (itself when fresh, else a strictly earlier one with the same cache key) at
     which both agents actually answered (that request's own reply came from the gate, not from the cache), with
-    verdicts that satisfy the gate logic IN FORCE AT THAT REQUEST; the reply is a SUCCESS carrying the token the
-    gate built then. -/
+    verdicts that satisfy the gate logic IN FORCE AT THAT REQUEST — which is the gate logic in force NOW, also for a
+    cached reply (`o'.cfg.gate = o.cfg.gate`); the reply is a SUCCESS carrying the token the gate built then. -/
 theorem c07_reconfigured_unblocked_reply_traces_to_verdicts (H : Hashes) (cfg0 : Cfg) (ops : List ROp)
     (tr1 tr2 : List RObs) (o : RObs) (r : Result) (hsplit : (execR H cfg0 init ops).2 = tr1 ++ o :: tr2)
     (hr : o.out.result = some r) (hb : r.blocked = false) :
@@ -674,7 +675,7 @@ theorem c07_reconfigured_unblocked_reply_traces_to_verdicts (H : Hashes) (cfg0 :
       o.op = .run p zr yr ∧ o'.op = .run p' (.ret z) (.ret y) ∧ H.md5 p'.id = H.md5 p.id ∧
       o'.out = ⟨.gated ev, some (gateResult H o'.cfg.gate p' z y)⟩ ∧
       criterion o'.cfg.gate z y = true ∧ r.success = true ∧ r.action = .success ∧
-      r.token = (gateResult H o'.cfg.gate p' z y).token ∧ (r.cached = false → o' = o) := by
+      r.token = (gateResult H o'.cfg.gate p' z y).token ∧ (r.cached = false → o' = o) ∧ o'.cfg.gate = o.cfg.gate := by
   have hmem : ∀ x ∈ tr1 ++ [o], x ∈ (execR H cfg0 init ops).2 := by
     intro x hx; rw [hsplit]
     rcases List.mem_append.mp hx with h | h
@@ -692,9 +693,9 @@ theorem c07_reconfigured_unblocked_reply_traces_to_verdicts (H : Hashes) (cfg0 :
     obtain ⟨p, z, y, hop, hres⟩ := ho.1 ev r hout
     subst hres
     have := fromGate o.cfg.gate p z y hb
-    exact ⟨o, by simp, p, .ret z, .ret y, p, z, y, ev, hop, hop, rfl, hout, this.1, this.2.1, this.2.2, rfl, fun _ => rfl⟩
+    exact ⟨o, by simp, p, .ret z, .ret y, p, z, y, ev, hop, hop, rfl, hout, this.1, this.2.1, this.2.2, rfl, fun _ => rfl, rfl⟩
   · have hkind : o.out.kind = .cacheHit := (execR_obs H ops cfg0 init o (hmem o (by simp))).2.2 r hr hc
-    obtain ⟨o', ho', p, p', zr, yr, zr', yr', r', ev, hop, hop', hmd, hout', _, hres⟩ :=
+    obtain ⟨o', ho', ⟨p, p', zr, yr, zr', yr', r', ev, hop, hop', hmd, hout', _, hres⟩, hgeq⟩ :=
       execR_originals H ops cfg0 init [] (by intro e he; simp [init] at he) tr1 tr2 o hsplit hkind
     have ho'1 : o' ∈ tr1 := by simpa using ho'
     obtain ⟨p'', z, y, hop'', hres'⟩ :=
@@ -707,40 +708,41 @@ theorem c07_reconfigured_unblocked_reply_traces_to_verdicts (H : Hashes) (cfg0 :
     subst hres'
     have := fromGate o'.cfg.gate p' z y (by simpa using hb)
     exact ⟨o', List.mem_append_left _ ho'1, p, zr, yr, p', z, y, ev, hop, hop', hmd, hout', this.1, this.2.1,
-      this.2.2, rfl, fun h => by simp at h⟩
+      this.2.2, rfl, fun h => by simp at h, hgeq⟩
 
-/-- Clause 1 with "the configured gate logic" read at the time of the request, outside the finding's trigger: if
-    the gate logic was not re-assigned between the requests of the history up to this one (other attributes may
-    have been), every un-blocked reply — cached ones included — goes back to verdicts that satisfy the gate logic
-    configured NOW. -/
-theorem c07_configured_gate_partial (H : Hashes) (cfg0 : Cfg) (ops : List ROp)
+/-- Clause 1 at full strength for histories in which public attributes — the gate logic included — are re-assigned
+    on the live loop, "the configured gate logic" read at the time of the request: every un-blocked reply — fresh or
+    served from the cache — goes back to a request of the history (itself, or a strictly earlier one with the same cache
+    key) at which both agents actually answered with verdicts that satisfy the gate logic configured NOW, and its
+    token is the one the gate builds for those verdicts under the logic configured now.  (No hypothesis on the
+    re-assignments: a reply cached under another gate logic is not served — `checkCache` — which is the repair of
+    finding C07-gate-reassigned-cache; before it the statement needed "the gate logic was not re-assigned".) -/
+theorem c07_configured_gate (H : Hashes) (cfg0 : Cfg) (ops : List ROp)
     (tr1 tr2 : List RObs) (o : RObs) (r : Result) (hsplit : (execR H cfg0 init ops).2 = tr1 ++ o :: tr2)
-    (hgate : ∀ x ∈ tr1, x.cfg.gate = o.cfg.gate)
     (hr : o.out.result = some r) (hb : r.blocked = false) :
-    ∃ o' ∈ tr1 ++ [o], ∃ (p' : Prompt) (z y : Cls), o'.op = .run p' (.ret z) (.ret y) ∧
-      criterion o.cfg.gate z y = true ∧ r.token = (gateResult H o.cfg.gate p' z y).token := by
-  obtain ⟨o', ho', p, zr, yr, p', z, y, ev, _, hop', _, _, hcrit, _, _, htok, _⟩ :=
+    ∃ o' ∈ tr1 ++ [o], ∃ (p : Prompt) (zr yr : Resp) (p' : Prompt) (z y : Cls),
+      o.op = .run p zr yr ∧ o'.op = .run p' (.ret z) (.ret y) ∧ H.md5 p'.id = H.md5 p.id ∧
+      criterion o.cfg.gate z y = true ∧ r.success = true ∧ r.action = .success ∧
+      r.token = (gateResult H o.cfg.gate p' z y).token := by
+  obtain ⟨o', ho', p, zr, yr, p', z, y, ev, hop, hop', hmd, _, hcrit, hsucc, hact, htok, _, hg⟩ :=
     c07_reconfigured_unblocked_reply_traces_to_verdicts H cfg0 ops tr1 tr2 o r hsplit hr hb
-  have hg : o'.cfg.gate = o.cfg.gate := by
-    rcases List.mem_append.mp ho' with h | h
-    · exact hgate o' h
-    · simp at h; rw [h]
   rw [hg] at hcrit htok
-  exact ⟨o', ho', p', z, y, hop', hcrit, htok⟩
+  exact ⟨o', ho', p, zr, yr, p', z, y, hop, hop', hmd, hcrit, hsucc, hact, htok⟩
 
--- FULL (false on current tree): the same without `hgate` — "every un-blocked reply goes back to verdicts that
--- satisfy the gate logic configured at the time of THIS request".
-/-- Witness (open finding C07-gate-reassigned-cache; reproduced on the real code, corpus/C07/gate_reassigned.json):
-    a loop configured OR answers `p` with executor EXECUTE / assessor BLOCK: SUCCESS, cached.  `loop.gate_logic =
-    AND` is assigned.  The same prompt comes back un-blocked from the cache although the verdicts it goes back to
-    do not satisfy AND (the cache key does not contain the gate logic, nothing is cleared on assignment). -/
-theorem c07_gate_reassigned_cache_witness :
+/-- The scenario of the repaired finding C07-gate-reassigned-cache (corpus/C07/gate_reassigned.json): a loop
+    configured OR answers `p` with executor EXECUTE / assessor BLOCK: SUCCESS, cached.  `loop.gate_logic = AND` is
+    assigned.  The same prompt is NOT served from the cache: the agents are consulted again and the request is
+    judged — BLOCKED — under AND; after `gate_logic = OR` is assigned back, the entry decided under AND is not served
+    either. -/
+theorem c07_gate_reassigned_cache_not_served :
     ((execR idHashes { gate := .or } init
         [.op (.run ⟨1, true⟩ (.ret .execute) (.ret .block)), .assign { gate := .and },
-         .op (.run ⟨1, true⟩ (.ret .execute) (.ret .block))]).2.map
+         .op (.run ⟨1, true⟩ (.ret .execute) (.ret .block)), .op (.run ⟨1, true⟩ (.ret .execute) (.ret .permit)),
+         .assign { gate := .or }, .op (.run ⟨1, true⟩ (.ret .execute) (.ret .block))]).2.map
       fun o => (o.cfg.gate, o.out.result.map (·.blocked), o.out.result.map (·.cached),
                 criterion o.cfg.gate .execute .block)) =
-    [(.or, some false, some false, true), (.and, some false, some true, false)] := by
+    [(.or, some false, some false, true), (.and, some true, some false, false), (.and, some true, some true, false),
+     (.or, some false, some false, true)] := by
   decide
 
 /-- The injectivity hypothesis of `c07_token_binds_request` is needed (and is the modelled assumption about the
@@ -928,8 +930,8 @@ example : phaseReplies (execPhases {} idHashes init [.lookup (pr 1), .execCall, 
      ⟨.cacheHit, some ⟨true, .skipped, true, none, true⟩⟩] := by decide
 
 /-- a history with re-assignments (TTL, then gate logic) in which the hypotheses of
-    `c07_reconfigured_unblocked_reply_traces_to_verdicts` and — for the first two requests — of
-    `c07_configured_gate_partial` are met: the cached SUCCESS of request 2 goes back to request 1 -/
+    `c07_reconfigured_unblocked_reply_traces_to_verdicts` and `c07_configured_gate` are met: the cached SUCCESS of
+    request 2 goes back to request 1 -/
 example : ((execR idHashes { gate := .or } init
       [.op (.run (pr 1) (.ret .execute) (.ret .block)), .assign { gate := .or, ttl := 5 },
        .op (.run (pr 1) .exc .exc), .assign { gate := .and, ttl := 5 }, .op (.run (pr 2) (.ret .execute) (.ret .block))]).2.map
